@@ -435,3 +435,261 @@ Proof.
   destruct Hok as ([t' L'] & E). rewrite E in Hf |- *. exists t', L'. split; [reflexivity|]. split; [reflexivity|exact Hf].
 Qed.
 End NE4.
+
+(* ==== the same for LimP4: linear probing start, start+1, .. trivially covers the table; buckets hold up to 4 elements ==== *)
+From C12 Require Import Gen_P4 P4_Bucket TableP4 TableP4_Proofs TableP4_Find.
+
+Lemma lidx_covers L start b : 0 <= L -> 0 <= b < 2 ^ L -> exists p, 0 <= p < 2 ^ L /\ lidx L start p = b.
+Proof.
+  intros HL Hb. assert (Hpos : 0 < 2 ^ L) by (apply pow2_pos; lia).
+  exists ((b - start) mod 2 ^ L). split; [apply Z.mod_pos_bound; lia|].
+  unfold lidx. rewrite Zplus_mod_idemp_r. replace (start + (b - start)) with b by ring. apply Z.mod_small. lia.
+Qed.
+
+Fixpoint ptot (n : nat) (t : ptable) : Z := match n with O => 0 | S m => ptot m t + pcnt (t (Z.of_nat m)) end.
+
+Lemma ptot_ext n t t' : (forall j, 0 <= j < Z.of_nat n -> pcnt (t' j) = pcnt (t j)) -> ptot n t' = ptot n t.
+Proof. induction n as [|m IH]; intros H; [reflexivity|]. cbn [ptot]. rewrite IH by (intros; apply H; lia). rewrite H by lia. reflexivity. Qed.
+
+Lemma ptot_upd n t t' idx d : 0 <= idx < Z.of_nat n ->
+  (forall j, 0 <= j < Z.of_nat n -> pcnt (t' j) = if j =? idx then pcnt (t j) + d else pcnt (t j)) -> ptot n t' = ptot n t + d.
+Proof.
+  induction n as [|m IH]; intros Hi H; [lia|]. cbn [ptot]. rewrite (H (Z.of_nat m)) by lia.
+  destruct (Z.eqb_spec (Z.of_nat m) idx) as [E|E].
+  - rewrite (ptot_ext m t t'); [lia|]. intros j Hj. rewrite H by lia. destruct (Z.eqb_spec j idx); [lia|reflexivity].
+  - rewrite IH; [lia|lia|]. intros j Hj. apply H. lia.
+Qed.
+
+Lemma ptot_notfull n t : (forall j, pcnt (t j) <= 4) -> ptot n t < 4 * Z.of_nat n -> exists b, 0 <= b < Z.of_nat n /\ pcnt (t b) < 4.
+Proof.
+  intros Hle. induction n as [|m IH]; intros H; [cbn [ptot] in H; lia|]. cbn [ptot] in H.
+  destruct (Z.lt_ge_cases (pcnt (t (Z.of_nat m))) 4) as [Hlt|Hge].
+  - exists (Z.of_nat m). split; [lia|exact Hlt].
+  - destruct IH as (b & Hb & Hc); [pose proof (Hle (Z.of_nat m)); lia|]. exists b. split; [lia|exact Hc].
+Qed.
+
+Lemma ptot_ge n t i : (forall j, 0 <= pcnt (t j)) -> 0 <= i < Z.of_nat n -> pcnt (t i) <= ptot n t.
+Proof.
+  intros H0. induction n as [|m IH]; intros Hi; [lia|]. cbn [ptot].
+  assert (Hm : 0 <= ptot m t) by (clear IH Hi; induction m as [|k IHk]; cbn [ptot]; [lia|pose proof (H0 (Z.of_nat k)); lia]).
+  destruct (Z.eq_dec i (Z.of_nat m)) as [->|]; [lia|]. pose proof (H0 (Z.of_nat m)). specialize (IH ltac:(lia)). lia.
+Qed.
+
+Lemma ptot_le n t : (forall j, pcnt (t j) <= 4) -> ptot n t <= 4 * Z.of_nat n.
+Proof. intros H. induction n as [|m IH]; cbn [ptot]; [lia|]. pose proof (H (Z.of_nat m)). lia. Qed.
+
+Lemma pprobe_loop_exn L t start : 0 <= L <= 63 -> forall fuel probe,
+  0 <= probe < 2 ^ L -> (Z.to_nat (2 ^ L - probe) <= fuel)%nat ->
+  pprobe_loop fuel t (2 ^ L) (lidx L start probe) probe = Exn ->
+  forall p, probe <= p < 2 ^ L -> Gen_P4.IsFull (ps (t (lidx L start p))) = true.
+Proof.
+  intros HL. assert (2 ^ L <= 2 ^ 63) by (apply pow2_le_mono; lia).
+  induction fuel as [|f IH]; intros probe Hp Hf; [lia|].
+  cbn [pprobe_loop]. destruct (Gen_P4.IsFull _) eqn:Hfull; [|discriminate].
+  rewrite (wrapU_small 64 (probe + 1)) by (change (2 ^ 64) with (2 * 2 ^ 63); lia).
+  destruct (Z.geb_spec (probe + 1) (2 ^ L)).
+  - intros _ p Hpp. replace p with probe by lia. exact Hfull.
+  - rewrite next_lidx by lia. intros E p Hpp. destruct (Z.eq_dec p probe) as [->|]; [exact Hfull|].
+    apply (IH (probe + 1)); [lia|lia|exact E|lia].
+Qed.
+
+Section PNE.
+Variables (H mm : Z).
+Variable hash : Z -> Z.
+Hypothesis HH : 4 <= H <= 8.
+Hypothesis Hmm : 1 <= mm <= 4.
+Hypothesis hash_range : forall k, 0 <= hash k < 2 ^ 64.
+
+(* pvAddNogrow on a LimP4 table: no throw when some bucket has < 4 elements; on success exactly one bucket gains one element *)
+Lemma padd_nogrow_count L t code key : 0 <= L <= 63 -> PTinv H hash L t -> 0 <= code < 2 ^ 64 ->
+  match padd_nogrow H t L code key with
+  | Ok t' => exists idx, 0 <= idx < 2 ^ L /\ forall j, pcnt (t' j) = if Z.eqb j idx then pcnt (t j) + 1 else pcnt (t j)
+  | Exn => forall b, 0 <= b < 2 ^ L -> pcnt (t b) = 4
+  | _ => False
+  end.
+Proof.
+  intros HL [Hwf Hel] Hcode.
+  assert (Hpos : 0 < 2 ^ L) by (apply pow2_pos; lia).
+  assert (Hle : 2 ^ L <= 2 ^ 63) by (apply pow2_le_mono; lia).
+  unfold padd_nogrow. rewrite shl1_pow2 by lia.
+  rewrite (wrapU_small 64 (2 ^ L)) by (change (2 ^ 64) with (2 * 2 ^ 63); lia).
+  set (start := Gen_Base.GetStartBucketIndex code (2 ^ L)).
+  assert (Hstart : 0 <= start < 2 ^ L) by (unfold start; rewrite start_mod by lia; apply Z.mod_pos_bound; lia).
+  pose proof (pprobe_loop_spec L t start HL (S (Z.to_nat (2 ^ L))) 0 ltac:(lia) ltac:(lia)) as Hloop.
+  pose proof (pprobe_loop_exn L t start HL (S (Z.to_nat (2 ^ L))) 0 ltac:(lia) ltac:(lia)) as Hexn.
+  assert (E0 : lidx L start 0 = start) by (unfold lidx; rewrite Z.add_0_r; apply Z.mod_small; lia).
+  rewrite E0 in Hloop, Hexn.
+  destruct (pprobe_loop _ t (2 ^ L) start 0) as [[idx p]| | |]; try contradiction.
+  - destruct Hloop as (Hp & Hidx & Hfull & Hpath).
+    destruct (Hwf idx) as (Hinv & Hmpi & Hmpi1 & Hpr).
+    set (c := pcnt (t idx)) in *.
+    assert (Hc : 0 <= c <= 4) by (apply (pbwf_cnt H hash L), Hwf).
+    assert (Hc4 : c < 4).
+    { destruct (Z.eq_dec c 4) as [E|]; [|lia]. apply (isfull_cnt H HH _ _ _ _ Hinv) in E. congruence. }
+    destruct (p4_add_inv H (ps (t idx)) c _ _ code L p HH Hcode HL ltac:(change (2 ^ 64) with (2 * 2 ^ 63); lia) Hinv Hc4)
+      as (s' & Hadd & Hinv').
+    rewrite Hadd. fold c.
+    set (mpi' := if c =? 0 then pmpi (t idx) else if c =? pmpi (t idx) then pmpi (t idx) + 1 else pmpi (t idx)).
+    set (b' := mkP s' mpi' (upd (pky (t idx)) c key) (upd (ppr (t idx)) c p)).
+    assert (Hcnt' : pcnt b' = c + 1) by (unfold pcnt, b'; cbn [ps]; apply (p4_count_inv H _ _ _ _ ltac:(lia) Hinv')).
+    exists idx. split; [rewrite Hidx; apply lidx_range; lia|].
+    intros j. unfold ptupd. destruct (Z.eqb_spec j idx) as [->|]; [exact Hcnt'|reflexivity].
+  - (* the loop gave up: every bucket on the path start .. start + 2^L - 1, i.e. every bucket, is full *)
+    intros b Hb. destruct (lidx_covers L start b ltac:(lia) Hb) as (p & Hp & Hpb).
+    specialize (Hexn eq_refl p ltac:(lia)). rewrite Hpb in Hexn.
+    destruct (Hwf b) as (Hinv & _). apply (isfull_cnt H HH _ _ _ _ Hinv). exact Hexn.
+Qed.
+
+Notation ptotL L := (ptot (Z.to_nat (2 ^ L))).
+
+Lemma prelocate_item_count L newL told tnew i : 0 <= L -> L < newL <= 63 -> PTinv H hash L told -> PTinv H hash newL tnew ->
+  0 <= i < 2 ^ L -> 0 < pcnt (told i) -> ptotL newL tnew < 4 * 2 ^ newL ->
+  match prelocate_item H mm hash told tnew L newL i with
+  | Ok (told', tnew') => ptotL L told' = ptotL L told - 1 /\ ptotL newL tnew' = ptotL newL tnew + 1
+  | _ => False
+  end.
+Proof.
+  intros HL0 HnL Hold Hnew Hi Hc0 Htot.
+  assert (HposL : 0 < 2 ^ L) by (apply pow2_pos; lia). assert (HposN : 0 < 2 ^ newL) by (apply pow2_pos; lia).
+  pose proof (prelocate_item_spec H mm hash HH Hmm hash_range L newL told tnew i HL0 HnL Hold Hnew Hi Hc0) as Hspec.
+  assert (Heq : exists told1 tnew1, prelocate_item H mm hash told tnew L newL i = Ok (told1, tnew1) /\
+                  ptotL newL tnew1 = ptotL newL tnew + 1).
+  { pose proof Hold as [Hwf Hel]. unfold prelocate_item.
+    destruct (Hwf i) as (Hinv & Hmpi & Hmpi1 & Hpr). set (c := pcnt (told i)) in *. set (idx := c - 1).
+    set (key := pky (told i) idx). pose proof (hash_range key) as Hh.
+    destruct (Hel i idx Hi ltac:(fold c; subst idx; lia)) as (Hp0 & Hb0 & _). fold key in Hb0. set (p0 := ppr (told i) idx) in *.
+    set (code := Gen_P4.GetHashCodePart H (ps (told i)) (hash key) i L newL 8 idx).
+    assert (Hcc : code = hash key \/ code = known (qof newL) (hash key)).
+    { destruct (p4_bucket_read H (ps (told i)) c _ _ idx (hash key) i L newL 8 HH Hinv ltac:(subst idx; lia) ltac:(lia) ltac:(lia))
+        as [Hf|(Hsl & Hv & Hs)]; [left; exact Hf|].
+      assert (Hrec : code = if p4_full_used (p4_byte (hash key) L p0) L newL then hash key else known (qof L) (hash key)).
+      { unfold code. apply p4_reconstruct; try lia; try exact Hv; try exact Hs; try (subst idx; lia).
+        rewrite Hb0 at 1. unfold lidx, phome. rewrite start_mod by lia. reflexivity. }
+      rewrite Hrec. destruct (p4_full_used _ _ _) eqn:Hfu; [left; reflexivity|right].
+      apply p4_full_used_false in Hfu; [|apply p4_byte_range; lia]. destruct Hfu as [_ Hq]. rewrite Hq. reflexivity. }
+    assert (Hcr : 0 <= code < 2 ^ 64).
+    { destruct Hcc as [->| ->]; [lia|]. apply known_range; [apply qof_nonneg; lia|lia]. }
+    pose proof (padd_nogrow_count newL tnew code key ltac:(lia) Hnew Hcr) as Hcntn.
+    destruct (padd_nogrow H tnew newL code key) as [tnew'| | |]; try contradiction.
+    - destruct Hcntn as (ix & Hix & Hcj).
+      destruct (premove_at_spec H mm hash HH Hmm hash_range L told i idx ltac:(lia) Hold ltac:(fold c; subst idx; lia)) as (told' & Hrm & _).
+      rewrite Hrm. exists told', tnew'. split; [reflexivity|].
+      rewrite (ptot_upd (Z.to_nat (2 ^ newL)) tnew tnew' ix 1); [lia|lia|]. intros j _. apply Hcj.
+    - exfalso. destruct (ptot_notfull (Z.to_nat (2 ^ newL)) tnew) as (b1 & Hb1 & Hc1).
+      + intros j. pose proof (pbwf_cnt H hash newL _ (proj1 Hnew j)). lia.
+      + lia.
+      + rewrite (Hcntn b1) in Hc1 by lia. lia. }
+  destruct Heq as (told1 & tnew1 & E & Htn). rewrite E in Hspec |- *.
+  destruct Hspec as (Ho1 & Hn1 & Hc1 & Hfr & _).
+  split; [|exact Htn].
+  rewrite (ptot_upd (Z.to_nat (2 ^ L)) told told1 i (-1)); [lia|lia|].
+  intros j Hj. destruct (Z.eqb_spec j i) as [->|Hne']; [lia|]. rewrite Hfr by assumption. reflexivity.
+Qed.
+End PNE.
+
+Section PNE3.
+Variables (H mm : Z).
+Variable hash : Z -> Z.
+Hypothesis HH : 4 <= H <= 8.
+Hypothesis Hmm : 1 <= mm <= 4.
+Hypothesis hash_range : forall k, 0 <= hash k < 2 ^ 64.
+Variables (L newL : Z).
+Hypothesis HL : 0 <= L.
+Hypothesis HnL : L < newL <= 63.
+
+Notation ptotL := (ptot (Z.to_nat (2 ^ L))).
+Notation ptotN := (ptot (Z.to_nat (2 ^ newL))).
+
+Lemma pmigrate_bucket_ok i : 0 <= i < 2 ^ L -> forall fuel told tnew calls, PTinv H hash L told -> PTinv H hash newL tnew ->
+  ptotL told + ptotN tnew <= 4 * 2 ^ L -> (Z.to_nat (pcnt (told i)) < fuel)%nat ->
+  match pmigrate_bucket H mm hash fuel told tnew L newL i calls with
+  | Ok (told', tnew', _) => PTinv H hash L told' /\ PTinv H hash newL tnew' /\ ptotL told' + ptotN tnew' = ptotL told + ptotN tnew
+  | _ => False
+  end.
+Proof.
+  intros Hi. pose proof (pow_lt L newL HL HnL) as Hlt. assert (HposL : 0 < 2 ^ L) by (apply pow2_pos; lia).
+  induction fuel as [|f IH]; intros told tnew calls Hold Hnew Hsum Hf; [lia|].
+  cbn [pmigrate_bucket]. pose proof (pbwf_cnt H hash L _ (proj1 Hold i)) as Hc.
+  destruct (Z.eqb_spec (pcnt (told i)) 0) as [Hz|Hnz]; [split; [assumption|split; [assumption|reflexivity]]|].
+  assert (Hge : pcnt (told i) <= ptotL told).
+  { apply ptot_ge; [|lia]. intros j. pose proof (pbwf_cnt H hash L _ (proj1 Hold j)). lia. }
+  pose proof (prelocate_item_count H mm hash HH Hmm hash_range L newL told tnew i HL HnL Hold Hnew Hi ltac:(lia) ltac:(lia)) as Hcnt.
+  pose proof (prelocate_item_spec H mm hash HH Hmm hash_range L newL told tnew i HL HnL Hold Hnew Hi ltac:(lia)) as Hspec.
+  cbv zeta. destruct (prelocate_item H mm hash told tnew L newL i) as [[told1 tnew1]| | |]; try contradiction.
+  destruct Hcnt as [Ht1 Ht2]. destruct Hspec as (Ho1 & Hn1 & Hc1 & _).
+  match goal with |- context [pmigrate_bucket H mm hash f told1 tnew1 L newL i ?c] => specialize (IH told1 tnew1 c Ho1 Hn1 ltac:(lia) ltac:(lia));
+    destruct (pmigrate_bucket H mm hash f told1 tnew1 L newL i c) as [[[told2 tnew2] c2]| | |]; try contradiction end.
+  destruct IH as (Ho2 & Hn2 & Hs2). split; [assumption|]. split; [assumption|lia].
+Qed.
+
+Lemma pmigrate_from_ok : forall n i told tnew calls, PTinv H hash L told -> PTinv H hash newL tnew ->
+  ptotL told + ptotN tnew <= 4 * 2 ^ L -> 0 <= i -> i + Z.of_nat n <= 2 ^ L ->
+  match pmigrate_from H mm hash n told tnew L newL i calls with
+  | Ok (told', tnew', _) => PTinv H hash L told' /\ PTinv H hash newL tnew' /\ ptotL told' + ptotN tnew' = ptotL told + ptotN tnew
+  | _ => False
+  end.
+Proof.
+  induction n as [|m IH]; intros i told tnew calls Hold Hnew Hsum Hi Hin; cbn [pmigrate_from].
+  - split; [assumption|]. split; [assumption|reflexivity].
+  - pose proof (pbwf_cnt H hash L _ (proj1 Hold i)) as Hc.
+    pose proof (pmigrate_bucket_ok i ltac:(lia) 5%nat told tnew calls Hold Hnew Hsum ltac:(lia)) as Hb.
+    destruct (pmigrate_bucket H mm hash 5 told tnew L newL i calls) as [[[told1 tnew1] c1]| | |]; try contradiction.
+    destruct Hb as (Ho1 & Hn1 & Hs1).
+    specialize (IH (i + 1) told1 tnew1 c1 Ho1 Hn1 ltac:(lia) ltac:(lia) ltac:(lia)).
+    destruct (pmigrate_from H mm hash m told1 tnew1 L newL (i + 1) c1) as [[[told2 tnew2] c2]| | |]; try contradiction.
+    destruct IH as (Ho2 & Hn2 & Hs2). split; [assumption|]. split; [assumption|lia].
+Qed.
+
+Lemma ptot_empty n : ptot n (pempty_table H mm) = 0.
+Proof.
+  induction n as [|m IH]; cbn [ptot]; [reflexivity|]. rewrite IH.
+  unfold pempty_table, pempty_bucket, pcnt. cbn [ps].
+  rewrite (p4_count_inv H _ 0 (fun _ => 0) (fun _ => 0)); [reflexivity|lia|apply p4_inv_empty; lia].
+Qed.
+
+(* LimP4: migrating into a FRESH table of 2^newL > 2^L buckets never throws *)
+Theorem pmigrate_found_ok told : PTinv H hash L told ->
+  exists told' tnew calls, pmigrate H mm hash told L newL = Ok (told', tnew, calls) /\ PTinv H hash newL tnew /\
+    (forall k, PPresent L told k -> PFound hash newL tnew k).
+Proof.
+  intros Hold. assert (HposL : 0 < 2 ^ L) by (apply pow2_pos; lia).
+  pose proof (pmigrate_found H mm hash HH Hmm hash_range L newL told HL HnL Hold) as Hf. unfold pmigrate in *.
+  pose proof (pmigrate_from_ok (Z.to_nat (2 ^ L)) 0 told (pempty_table H mm) 0 Hold (pempty_inv H mm hash HH Hmm newL)) as Hok.
+  rewrite ptot_empty in Hok.
+  specialize (Hok ltac:(pose proof (ptot_le (Z.to_nat (2 ^ L)) told ltac:(intros j; pose proof (pbwf_cnt H hash L _ (proj1 Hold j)); lia)); lia) ltac:(lia) ltac:(lia)).
+  destruct (pmigrate_from H mm hash (Z.to_nat (2 ^ L)) told (pempty_table H mm) L newL 0 0) as [[[told' tnew] c]| | |]; try contradiction.
+  exists told', tnew, c. split; [reflexivity|exact Hf].
+Qed.
+End PNE3.
+
+Section PNE4.
+Variables (H mm : Z).
+Variable hash : Z -> Z.
+Hypothesis HH : 4 <= H <= 8.
+Hypothesis Hmm : 1 <= mm <= 4.
+Hypothesis hash_range : forall k, 0 <= hash k < 2 ^ 64.
+
+Theorem p4_gen_reloc_found_ok L newL told : 0 <= L -> L < newL <= 63 -> PTinv H hash L told ->
+  exists told' tnew, p4_gen_reloc H mm hash L newL told (pempty_table H mm) = Ok (told', tnew) /\ PTinv H hash newL tnew /\
+    (forall k, PPresent L told k -> PFound hash newL tnew k).
+Proof.
+  intros HL HnL Hold.
+  rewrite (p4_gen_reloc_eq H mm hash HH Hmm hash_range L newL HL HnL told (pempty_table H mm) 0 Hold (pempty_inv H mm hash HH Hmm newL)).
+  destruct (pmigrate_found_ok H mm hash HH Hmm hash_range L newL HL HnL told Hold) as (told' & tnew & c & E & Hrest).
+  unfold pmigrate in E. rewrite E. exists told', tnew. split; [reflexivity|exact Hrest].
+Qed.
+
+Theorem pgrow_chain_find_ok : forall Ls L t, 0 <= L <= 63 -> increasing L Ls -> PTinv H hash L t ->
+  exists t' L', pgrow_chain H mm hash t L Ls = Ok (t', L') /\ p4_gen_grow_chain H mm hash t L Ls = Ok (t', L') /\ PTinv H hash L' t' /\
+    (forall k, PPresent L t k -> exists r, pfind t' L' k (hash k) = Ok r /\ phit hash L' t' k r).
+Proof.
+  intros Ls L t HL Hinc Ht. rewrite (p4_gen_grow_chain_eq H mm hash HH Hmm hash_range Ls L t HL Hinc Ht).
+  pose proof (pgrow_chain_find H mm hash HH Hmm hash_range Ls L t HL Hinc Ht) as Hf.
+  assert (Hok : exists r, pgrow_chain H mm hash t L Ls = Ok r).
+  { clear Hf. revert L t HL Hinc Ht. induction Ls as [|n r IH]; intros L t HL Hinc Ht; cbn [pgrow_chain]; [eexists; reflexivity|].
+    destruct Hinc as [Hn Hr].
+    destruct (pmigrate_found_ok H mm hash HH Hmm hash_range L n ltac:(lia) Hn t Ht) as (told' & tnew & c & E & Htn & _). rewrite E.
+    apply IH; [lia|exact Hr|exact Htn]. }
+  destruct Hok as ([t' L'] & E). rewrite E in Hf |- *. exists t', L'. split; [reflexivity|]. split; [reflexivity|exact Hf].
+Qed.
+End PNE4.
